@@ -8,6 +8,7 @@ const replayC02 = `package fast
 
 import (
 	"fmt"
+	"math"
 	"testing"
 )
 
@@ -80,6 +81,121 @@ func gowpOp8(op string, a, b uint8) uint8 {
 	return b
 }
 
+func gowpBits02(v interface{}) string {
+	switch v := v.(type) {
+	case float64:
+		return fmt.Sprintf("f64:%016x", math.Float64bits(v))
+	case complex128:
+		return fmt.Sprintf("c128:%016x,%016x", math.Float64bits(real(v)), math.Float64bits(imag(v)))
+	}
+	return fmt.Sprintf("%T:%v", v, v)
+}
+
+// compound assignments with the constants 0, 1, -1 in floating point, on a variable and on places
+func TestGowpReplayC02Float(t *testing.T) {
+	fstr := func(v float64) string {
+		switch {
+		case v == 0 && math.Signbit(v):
+			return "math.Copysign(0, -1)"
+		case math.IsInf(v, 1):
+			return "math.Inf(1)"
+		case math.IsInf(v, -1):
+			return "math.Inf(-1)"
+		}
+		return fmt.Sprintf("float64(%v)", v)
+	}
+	nz, inf := math.Copysign(0, -1), math.Inf(1)
+	stmts := []struct {
+		op string
+		f  func(x float64) float64
+		g  func(z complex128) complex128
+	}{
+		{"+= 0", func(x float64) float64 { x += 0; return x }, func(z complex128) complex128 { z += 0; return z }},
+		{"-= 0", func(x float64) float64 { x -= 0; return x }, func(z complex128) complex128 { z -= 0; return z }},
+		{"*= 0", func(x float64) float64 { x *= 0; return x }, func(z complex128) complex128 { z *= 0; return z }},
+		{"*= 1", func(x float64) float64 { x *= 1; return x }, func(z complex128) complex128 { z *= 1; return z }},
+		{"*= -1", func(x float64) float64 { x *= -1; return x }, func(z complex128) complex128 { z *= -1; return z }},
+		{"/= 1", func(x float64) float64 { x /= 1; return x }, func(z complex128) complex128 { z /= 1; return z }},
+		{"/= -1", func(x float64) float64 { x /= -1; return x }, func(z complex128) complex128 { z /= -1; return z }},
+		{"/= 0", func(x float64) float64 { var d float64; x /= d; return x }, nil},
+		{"/= 2", func(x float64) float64 { x /= 2; return x }, func(z complex128) complex128 { z /= 2; return z }},
+	}
+	places := []struct{ decl, place string }{
+		{"var x K", "x"}, {"var arr [3]K", "arr[1]"}, {"m := map[string]K{}", "m[\"a\"]"}, {"var y K; p := &y", "*p"}, {"var st struct{ A, B K }", "st.B"},
+	}
+	for _, pl := range places {
+		for _, st := range stmts {
+			for _, x := range []float64{0, nz, 1, -2.5, inf, -inf} {
+				ir := New()
+				gowpEval02(ir, "import \"math\"")
+				decl := ""
+				for _, c := range pl.decl {
+					if c == 'K' {
+						decl += "float64"
+					} else {
+						decl += string(c)
+					}
+				}
+				src := fmt.Sprintf("%s; %s = %s; %s %s; %s", decl, pl.place, fstr(x), pl.place, st.op, pl.place)
+				res, err := gowpEval02(ir, src)
+				want := st.f(x)
+				if err != nil || gowpBits02(res) != gowpBits02(want) {
+					t.Fatalf("GOWP-REPLAY-FAIL %s: interpreter gives %v (%s, error %v), compiled Go gives %v (%s)", src, res, gowpBits02(res), err, want, gowpBits02(want))
+				}
+			}
+			if st.g == nil || pl.place == "*p" {
+				continue // (&y of a complex128 variable is a separate, known limitation)
+			}
+			for _, z := range []complex128{complex(nz, nz), complex(1, inf), complex(inf, -1), complex(2, -3), complex(0, nz)} {
+				ir := New()
+				gowpEval02(ir, "import \"math\"")
+				decl := ""
+				for _, c := range pl.decl {
+					if c == 'K' {
+						decl += "complex128"
+					} else {
+						decl += string(c)
+					}
+				}
+				src := fmt.Sprintf("%s; %s = complex(%s, %s); %s %s; %s", decl, pl.place, fstr(real(z)), fstr(imag(z)), pl.place, st.op, pl.place)
+				res, err := gowpEval02(ir, src)
+				want := st.g(z)
+				if err != nil || gowpBits02(res) != gowpBits02(want) {
+					t.Fatalf("GOWP-REPLAY-FAIL %s: interpreter gives %v (%s, error %v), compiled Go gives %v (%s)", src, res, gowpBits02(res), err, want, gowpBits02(want))
+				}
+			}
+		}
+	}
+	// unsigned 64-bit: "all bits set" is not -1
+	for _, pl := range places {
+		for _, u := range []uint64{0, 1, 7, ^uint64(0), ^uint64(0) - 1} {
+			for _, st := range []struct {
+				op string
+				f  func(u uint64) uint64
+			}{
+				{"/= 18446744073709551615", func(u uint64) uint64 { u /= 18446744073709551615; return u }},
+				{"*= 18446744073709551615", func(u uint64) uint64 { u *= 18446744073709551615; return u }},
+				{"/= 8", func(u uint64) uint64 { u /= 8; return u }},
+			} {
+				ir := New()
+				decl := ""
+				for _, c := range pl.decl {
+					if c == 'K' {
+						decl += "uint64"
+					} else {
+						decl += string(c)
+					}
+				}
+				src := fmt.Sprintf("%s; %s = %d; %s %s; %s", decl, pl.place, u, pl.place, st.op, pl.place)
+				res, err := gowpEval02(ir, src)
+				if err != nil || fmt.Sprint(res) != fmt.Sprint(st.f(u)) {
+					t.Fatalf("GOWP-REPLAY-FAIL %s: interpreter gives %v (error %v), compiled Go gives %d", src, res, err, st.f(u))
+				}
+			}
+		}
+	}
+}
+
 func TestGowpReplayC02(t *testing.T) {
 	ops := []string{"=", "+=", "-=", "*=", "/=", "%=", "&=", "|=", "^=", "&^=", "<<=", ">>="}
 	places := []struct{ decl, place string }{
@@ -138,4 +254,7 @@ func init() {
 	r := &replayer{pkg: "fast", test: "TestGowpReplayC02", kind: "search", source: func(map[string]string, string) string { return replayC02 }}
 	replayers["fast.(*Comp).setPlace"] = r
 	replayers["fast.(*Comp).setVar"] = r
+	for _, op := range []string{"Add", "Sub", "Mul", "Quo", "Rem", "And", "Or", "Xor", "Andnot"} {
+		replayers["fast.(*Comp).var"+op+"Const|stmt-return"] = r
+	}
 }
